@@ -22,6 +22,7 @@ for name in sorted(os.listdir(sd)):
     if status == 'detected':
         meta['detected_by'] = prop
         meta['detected_rule'] = why[:300]
+        meta.pop('not_detected_reason', None)
         if name in after:
             meta['rule_added_after_first_miss'] = True
     else:
